@@ -128,6 +128,9 @@ class Run:
         # language obligations on the compiled patterns the property's functions delegate their decisions to
         from vf import rxcheck
         rxcheck.run(self, self.pid)
+        # frame obligations: the functions that compute this property's answer modify nothing they are given
+        from vf import aliascheck
+        aliascheck.run(self, self.pid)
         cov = self.cov
         cov["explanation"] = explanation
         if checker_cmd:
